@@ -11,12 +11,15 @@ A unit file (verus/units/*.vunit) is a list of sections:
   #hint-before <stripped source line inside the function body>
                              -- ghost text (assert .. by(..)) inserted before that line; text until next directive
   #loop-invariant <stripped `while`/`for` line>   -- invariant/decreases clauses inserted between loop head and `{`
+  #drop-macro <name> [<name>..]  -- statements `<name>!( .. );` (tracing macros) are removed from the body
   #endfn
 
 What the extraction changes (everything else is byte-for-byte the text of /repo):
   (1) `-> T {` becomes `-> (r: T)` + clauses + `{`; for unit functions clauses are put before `{`;
   (2) ghost statements are inserted before quoted anchor lines; loop invariants after loop heads;
-  (3) leading `pub`/`pub(crate)` visibility is kept; attributes above the fn are not copied.
+  (3) leading `pub`/`pub(crate)` visibility is kept; attributes above the fn are not copied;
+  (4) where a unit says so (#drop-macro), tracing-macro statements (debug!/trace!/warn!) are dropped —
+      they have no effect on the function's result or state; each one is listed in the evidence.
 A missing or ambiguous anchor raises LostAnchor (=> exit 2, never an alarm).
 """
 import hashlib, os, re
@@ -119,6 +122,8 @@ def parse_unit(path):
             elif d == "hint-before":
                 buf = []
                 cur_fn["hints"].append((arg, buf))
+            elif d == "drop-macro":
+                cur_fn.setdefault("drop", []).extend(arg.split())
             elif d == "loop-invariant":
                 buf = []
                 cur_fn["loops"].append((arg, buf))
@@ -162,6 +167,33 @@ def assemble(unit, repo):
                 sig_v = sig_s[: m.start()] + "-> (%s: %s)" % (val["ret"], m.group(1).strip())
             else:
                 sig_v = sig_s
+            # (0) drop logging-macro statements (Verus does not expand tracing macros); each dropped
+            #     statement is recorded in the extraction report
+            dropped = []
+            for mac in val.get("drop", []):
+                while True:
+                    m = re.search(r"^[ \t]*%s!\(" % re.escape(mac), body, re.M)
+                    if not m:
+                        break
+                    i, depth = m.end() - 1, 0
+                    while True:
+                        c = body[i]
+                        if c == '"':
+                            i += 1
+                            while body[i] != '"':
+                                i += 2 if body[i] == "\\" else 1
+                        elif c == "(":
+                            depth += 1
+                        elif c == ")":
+                            depth -= 1
+                            if depth == 0:
+                                break
+                        i += 1
+                    j = i + 1
+                    if body[j:j + 1] == ";":
+                        j += 1
+                    dropped.append(" ".join(body[m.start():j].split()))
+                    body = body[:m.start()] + body[j:]
             # (2) hints and loop invariants
             body_lines = body.split("\n")
             for anchor, text in val["hints"]:
@@ -187,6 +219,7 @@ def assemble(unit, repo):
             out.append("")
             report.append({"function": val["anchor"], "source": val["source"],
                            "byte_range": [a, b], "sha256_real_text": real_sha,
-                           "ghost_hints": len(val["hints"]), "loop_invariants": len(val["loops"])})
+                           "ghost_hints": len(val["hints"]), "loop_invariants": len(val["loops"]),
+                           "dropped_macro_statements": dropped})
     out += ["", "} // verus!", "fn main() {}", ""]
     return "\n".join(out), report
